@@ -44,10 +44,18 @@ func vfRoutingMicroScripts(property string) []vfMicroScript {
 		// overlapping incarnations on the real handlers; "@baseline" marks the set-up state whose registry the state
 		// reached after the explored steps must equal (same set of live streams, newer incarnations)
 		return []vfMicroScript{
-			{Name: "target-reconnects-while-old-stream-alive", Scenario: base("micro-c08-T", 0), Setup: []string{"openT:1", "openT:2", "openS:1", "@baseline"},
+			// (the receiver holds a last watermark - wm:1 in the set-up - so a sender that registers later is owed a replay)
+			{Name: "target-reconnects-while-old-stream-alive", Scenario: base("micro-c08-T", 0), Setup: []string{"openT:1", "openT:2", "openS:1", "wm:1", "@baseline"},
 				Steps: []string{"reopenT:1", "emit:1", "breakOldT:1"}},
-			{Name: "source-reconnects-while-old-stream-alive", Scenario: base("micro-c08-S", 0), Setup: []string{"openT:1", "openT:2", "openS:1", "@baseline"},
+			{Name: "source-reconnects-while-old-stream-alive", Scenario: base("micro-c08-S", 0), Setup: []string{"openT:1", "openT:2", "openS:1", "wm:1", "@baseline"},
 				Steps: []string{"reopenS:1", "emit:1", "breakOldSin:1"}},
+			// the old target stream breaks and the shard reconnects while the old sender is still shutting down
+			{Name: "target-breaks-and-reconnects-at-once", Scenario: base("micro-c08-B", 0), Setup: []string{"openT:1", "openT:2", "openS:1", "wm:1", "@baseline"},
+				Steps: []string{"breakT:1", "openT:1", "emit:1"}},
+			// a target acknowledges while the source shard's receiver is between incarnations, then the target stream ends:
+			// the sender's ack worker must not outlive its stream
+			{Name: "ack-retried-while-source-is-away-then-target-stream-ends", Scenario: base("micro-c08-A", 0), Setup: []string{"openT:1", "openT:2", "openS:1", "emit:1"},
+				Steps: []string{"breakSin:1", "tick:1", "breakT:1"}},
 			{Name: "source-stream-ends-then-reopen-fails", Scenario: base("micro-c08-F", 0), Setup: []string{"openT:1", "openT:2", "@baseline", "openS:1"},
 				Steps: []string{"breakSin:1", "failopenS:1", "openS:1", "breakSin:1"}},
 		}
@@ -161,11 +169,44 @@ func vfRoutingMicroBody(ms vfMicroScript, property string) func(s *vrt.Sched) (s
 		}
 		s.Detach()
 		synctest.Wait()
-		if property == "C08" && baseline != nil {
-			// the shutdown of the older incarnations has run its course (incl. the 1 s CloseSend guards)
-			time.Sleep(3 * time.Second)
+		if property == "C08" {
+			// the shutdown of the older incarnations has run its course (incl. the 1 s CloseSend guards and the
+			// back-off sleeps of workers that are not waited for)
+			time.Sleep(6 * time.Second)
 			synctest.Wait()
-			e.checkRegistry(baseline)
+			if baseline != nil {
+				e.checkRegistry(baseline)
+				e.checkWatermarkReplay()
+			}
+			// no worker outlives its stream: every goroutine started by a handler that has returned is gone
+			ended := map[string]bool{}
+			for _, src := range e.src {
+				for i, in := range src.incoming {
+					if in.returned {
+						ended[fmt.Sprintf("S%d#%d", src.idx, i)] = true
+					}
+				}
+			}
+			for _, t := range e.tgt {
+				for i, in := range t.incoming {
+					if in.returned {
+						ended[fmt.Sprintf("T%d#%d", t.idx, i)] = true
+					}
+				}
+			}
+			var left []string
+			for _, n := range s.AliveNames() {
+				root := n
+				if i := strings.Index(n, "/"); i >= 0 {
+					root = n[:i]
+				}
+				if ended[root] {
+					left = append(left, n)
+				}
+			}
+			if len(left) > 0 {
+				e.violate("C08", "worker-outlives-its-stream", fmt.Sprintf("6 s (virtual) after their stream's handler returned these workers are still running: %v", left))
+			}
 		}
 		rounds := e.closingPhase(synctest.Wait, 6)
 		e.checkEnd(rounds)
@@ -188,6 +229,20 @@ func vfRoutingMicroBody(ms vfMicroScript, property string) func(s *vrt.Sched) (s
 		}
 		if property == "C08" && len(e.panics) > 0 {
 			e.violate("C08", "crash/panic-escapes", fmt.Sprint(e.panics))
+		}
+		if property == "C08" {
+			// every stream has ended and the connection lifetime is over: no worker of the handlers may still be running
+			time.Sleep(5 * time.Second)
+			synctest.Wait()
+			var left []string
+			for _, n := range s.AliveNames() {
+				if n != "env" {
+					left = append(left, n)
+				}
+			}
+			if len(left) > 0 {
+				e.violate("C08", "worker-left-running-after-all-streams-ended", fmt.Sprintf("8 s (virtual) after every stream had ended and the lifetime was cancelled these goroutines of the handlers are still running: %v", left))
+			}
 		}
 		for _, v := range e.viol {
 			if v.Property == property || (property == "C04" && v.Property == "C02" && strings.HasPrefix(v.Signature, "task-delivered-0")) {
@@ -272,6 +327,30 @@ func (e *vfRouteExec) checkRegistry(baseline map[string][]string) {
 			}
 		}
 		_ = explained
+	}
+}
+
+// checkWatermarkReplay (C08): the source's receiver holds a last watermark (a watermark-only batch was received
+// before the reconnect), so a target stream incarnation that registered afterwards is owed a replay of it: the
+// newest live incarnation of every target that reconnected must have received a watermark-only message.
+func (e *vfRouteExec) checkWatermarkReplay() {
+	for _, t := range e.tgt {
+		if len(t.incoming) < 2 {
+			continue
+		}
+		ts := t.cur()
+		if ts == nil || ts.broken || ts.returned {
+			continue
+		}
+		got := false
+		for _, m := range ts.sent {
+			if len(m.IDs) == 0 {
+				got = true
+			}
+		}
+		if !got {
+			e.violate("C08", "watermark-replay-missed-the-newest-incarnation", fmt.Sprintf("target shard %d reconnected (stream #%d is its newest live stream) while the source's receiver held a last watermark, but that stream never received a watermark-only message (older streams: %d)", t.idx, len(t.incoming)-1, len(t.incoming)-1))
+		}
 	}
 }
 
